@@ -334,6 +334,34 @@ class _TNDArray(T):
 TNDArray = _TNDArray()
 
 
+class _TOutArr(T):
+    """a model's output array of ndim 0, 1 or 2: dims d0, d1, flat row-major data, string-content flag"""
+    name = 'OutArr'
+
+    def sort(self):
+        return _datatype('OutArr', [('ndim', z3.IntSort()), ('d0', z3.IntSort()), ('d1', z3.IntSort()),
+                                    ('data', z3.ArraySort(z3.IntSort(), z3.RealSort())), ('isstr', z3.BoolSort())])
+
+    def wrap(self, term, home=None):
+        return SOutArr(self, term, home)
+
+    def mk(self, ndim, d0, d1, data, isstr):
+        return self.sort().constructor(0)(ndim, d0, d1, data, isstr)
+
+    def f(self, term, i):
+        return z3.simplify(self.sort().accessor(0, i)(term))
+
+    def wf(self, term):
+        nd, d0, d1 = self.f(term, 0), self.f(term, 1), self.f(term, 2)
+        return [nd >= 0, nd <= 2, d0 >= 0, d1 >= 0, z3.Implies(nd == 0, z3.And(d0 == 1, d1 == 1)), z3.Implies(nd == 1, d1 == 1)]
+
+    def size(self, term):
+        return self.f(term, 1) * self.f(term, 2)
+
+
+TOutArr = _TOutArr()
+
+
 class TArr(T):
     """a raw (ghost) array, e.g. the stream history: index -> element"""
 
@@ -555,6 +583,17 @@ class SNDArray(SCompound):
         self.set(self.typ.mk(self.n, z3.Store(self.arr, idx, val), z3.Store(self.nan, idx, z3.BoolVal(isnan))))
 
     def __repr__(self): return "SNDArray"
+
+
+class SOutArr(SCompound):
+    ndim = property(lambda self: self.typ.f(self.get(), 0))
+    d0 = property(lambda self: self.typ.f(self.get(), 1))
+    d1 = property(lambda self: self.typ.f(self.get(), 2))
+    data = property(lambda self: self.typ.f(self.get(), 3))
+    isstr = property(lambda self: self.typ.f(self.get(), 4))
+    size = property(lambda self: self.typ.size(self.get()))
+
+    def __repr__(self): return "SOutArr"
 
 
 class SArr(SV):
